@@ -308,6 +308,72 @@ def check_arrays_follow_dtype(ctx, rule, m):
               "; ".join(sorted(set(bad))) or "no path stores _dtype", sd.where)
 
 
+def check_init_dtype(ctx, rule, m):
+    """HistogramBase.__init__: the reported dtype is the element type of the frequencies array actually stored, and the
+    squared errors are either derived from that array or converted to the reported dtype."""
+    HB = m.cls("HistogramBase")
+    init = HB.methods["__init__"]
+    ctx.saw(init)
+    n = 0
+    probs = []
+    for path in function_paths(init.node):
+        if end_kind(path) == "raise" or not consistent(path):
+            continue
+        n += 1
+        dsrc = None       # how the local `dtype` relates to the stored frequencies on this path
+        stored = False
+        for s_ in path:
+            if s_[0] != "stmt":
+                continue
+            st = s_[1]
+            if isinstance(st, ast.Assign):
+                tgt, val = U(st.targets[0]), st.value
+                if tgt in ("self._frequencies", "self.frequencies"):
+                    stored = True
+                    if isinstance(val, ast.Call) and call_is(val, "zeros", "zeros_like", "empty") and \
+                            any(k.arg == "dtype" and U(k.value) == "dtype" for k in val.keywords):
+                        dsrc = "allocated-with"
+                if tgt == "dtype" and U(val) in ("frequencies.dtype", "self._frequencies.dtype", "self.frequencies.dtype"):
+                    dsrc = "read-from-array"
+                elif tgt == "dtype" and dsrc == "read-from-array":
+                    dsrc = None
+                if tgt.startswith("self._dtype"):
+                    arg = val.args[0] if isinstance(val, ast.Call) and val.args else val
+                    if not (stored and U(arg) == "dtype" and dsrc in ("allocated-with", "read-from-array")):
+                        probs.append(f"`{U(st)[:60]}`: the dtype stored is not the element type of the frequencies array just stored")
+                if tgt in ("self.errors2", "self._errors2"):
+                    typed = _typed_with_own_dtype(val) or (isinstance(val, ast.Call) and any(
+                        k.arg == "dtype" and U(k.value) in ("self.dtype", "self._dtype", "self._frequencies.dtype") for k in val.keywords))
+                    names = {U(x) for x in ast.walk(val) if isinstance(x, ast.Attribute) and U(x.value) == "self"}
+                    derived = bool(names) and names <= {"self._frequencies", "self.frequencies"} and not any(
+                        isinstance(x, ast.Name) and x.id not in ("self", "abs", "np") for x in ast.walk(val))
+                    if not (typed or derived):
+                        probs.append(f"`{U(st)[:70]}` stores squared errors of whatever type the caller passed (reported dtype stays)")
+    ctx.check(n >= 2 and not probs, rule, "HistogramBase.__init__:dtype-is-the-arrays'", f"{n} constructing paths: _dtype = element type of the "
+              "stored frequencies; errors2 derived from them or converted to that dtype", "; ".join(sorted(set(probs))[:2]), init.where)
+
+
+def check_init_through_setter(ctx, rule, m):
+    """HistogramBase.__init__: contents supplied by the caller reach the histogram through the validating `frequencies`
+    setter on every path; only the all-zero allocation is stored directly."""
+    HB = m.cls("HistogramBase")
+    init = HB.methods["__init__"]
+    ctx.saw(init)
+    direct = []
+    via = 0
+    for st in ast.walk(init.node):
+        if isinstance(st, ast.Assign):
+            tgt = U(st.targets[0])
+            if tgt == "self.frequencies":
+                via += 1
+            if tgt == "self._frequencies" and not (isinstance(st.value, ast.Call) and call_is(st.value, "zeros", "zeros_like")):
+                direct.append(U(st)[:80])
+    ctx.check(via >= 1 and not direct, rule, "HistogramBase.__init__:contents-through-setter",
+              "given frequencies are stored with `self.frequencies = ...` (shape and sign validated)",
+              (f"`{direct[0]}` stores caller-supplied contents directly: negative values are accepted without free arithmetics and the "
+               "shape is not compared with the bins") if direct else "no store through the setter found", init.where)
+
+
 def check_operator_coercion(ctx, rule, m, names=("__iadd__", "__isub__", "__imul__", "__itruediv__")):
     """Arithmetic operators coerce the histogram's dtype with the operand's / factor's dtype (float for division) first."""
     HB = m.cls("HistogramBase")
@@ -402,6 +468,7 @@ def run(ctx):
                   f"{cn}.{fn_} stores _dtype although only __init__, set_dtype and copy may (the reported dtype must "
                   "change together with the arrays)", fi.where)
     check_arrays_follow_dtype(ctx, "C13.b", m)
+    check_init_dtype(ctx, "C13.b", m)
     rd = HB.methods["_reshape_data"]
     ctx.saw(rd)
     allocs = [c for c in calls_in(rd.node) if call_is(c, "zeros", "empty", "zeros_like")]
